@@ -76,8 +76,22 @@ def run(chk):
     sample = list(batch)
     chk.rng.shuffle(sample)
     sample = sample[:200 if quick else 2000]
-    cres = vlib.run_cli(sample)
+    tdir2 = vlib.subdir("c12-cli-traces")
+    cres = vlib.run_cli(sample, trace_dir=tdir2)
     for case in sample:
         judge(case, cres[case["id"]], "cli")
+    # the complete runs against the system specification: a parse failure ends the run at once
+    sys_tr = {}
+    for case in sample[:40 if quick else 400]:
+        evs = runtrace.read_events(os.path.join(tdir2, "cli-%s.ndjson" % case["id"]))
+        sys_tr[case["id"]] = runtrace.system_trace(evs, cres[case["id"]], case["args"], not case["terminal"])
+    for tid, (ok, diag, states, rc_) in runtrace.validate_many("TraceSystem", sys_tr).items():
+        chk.traces += 1
+        chk.states += states
+        chk.transitions += states
+        if not ok:
+            if rc_ not in (10, 12, 13) and "TRACE" not in (diag or "") and "nvariant" not in (diag or ""):
+                raise vlib.ToolError("TraceSystem failed on %s rc=%s\n%s" % (tid, rc_, diag))
+            chk.violation("TraceSystem rejects the recorded run: %s" % (diag or "")[:300], {"trace": sys_tr[tid]})
     if batch:
         chk.sample({"abstract": meta[batch[0]["id"]][0], "files": batch[0]["files"]})
